@@ -149,6 +149,113 @@ func c15History(c *Ctx, r *Report) {
 	r.need("table rows compared with earlier SDK generations", nCompared, 2000)
 }
 
+// goldenCodes: message constant -> field num -> types.Fit code, of the golden parsed last.
+var goldenCodes = map[string]map[int]int{}
+
+// kindHistory: the *kind* of a field (plain FIT value, UTC time, local time, latitude, longitude)
+// is part of the meaning of its number and does not change between SDK versions either. For every
+// row the checked-in table shares with a golden generator output (same message, same number, same
+// member name), the kind stored in the checked-in row equals the one generated from that SDK's
+// workbook. Restricted to the kinds in `kinds` (the caller's property); nil = all.
+func kindHistory(c *Ctx, r *Report, rule string, kinds map[int]bool, consequence string) {
+	p, perr := c.profile()
+	if p == nil || len(perr) > 0 {
+		r.fail(rule, "profile", "", "profile tables not readable")
+		return
+	}
+	goldens, _ := filepath.Glob(filepath.Join(c.repo, "cmd/fitgen/internal/profile/testdata", "*.golden"))
+	sort.Strings(goldens)
+	nameToNum := map[string]int64{}
+	for k, n := range p.MsgName {
+		nameToNum[n] = k
+	}
+	if mn, _ := c.fit.Types.Scope().Lookup("MesgNum").(*types.TypeName); mn != nil {
+		for _, name := range c.fit.Types.Scope().Names() {
+			if k, ok := c.fit.Types.Scope().Lookup(name).(*types.Const); ok && types.Identical(k.Type(), mn.Type()) {
+				if v, ok := constInt64(k); ok {
+					nameToNum[name] = v
+				}
+			}
+		}
+	}
+	kname := []string{"plain FIT value", "UTC time", "local time", "latitude", "longitude"}
+	kn := func(k int) string {
+		if k >= 0 && k < len(kname) {
+			return kname[k]
+		}
+		return fmt.Sprintf("kind %d", k)
+	}
+	nCompared, nFiles := 0, 0
+	for _, g := range goldens {
+		data, err := os.ReadFile(g)
+		if err != nil {
+			continue
+		}
+		goldenCodes = map[string]map[int]int{}
+		msgs, rows, types_, perr := parseGolden(string(data))
+		if perr != "" {
+			r.undecided(rule, filepath.Base(g), "", "golden file not understood: "+perr)
+			continue
+		}
+		nFiles++
+		key := strings.TrimSuffix(filepath.Base(g), ".xlsx.golden")
+		var bad []string
+		var mnames []string
+		for m := range rows {
+			mnames = append(mnames, m)
+		}
+		sort.Strings(mnames)
+		nThis := 0
+		for _, mname := range mnames {
+			m, ok := nameToNum[mname]
+			if !ok {
+				continue
+			}
+			members := msgs[types_[mname]]
+			t := p.MsgTypes[m]
+			if t == nil {
+				continue
+			}
+			st, ok := t.Underlying().(*types.Struct)
+			if !ok {
+				continue
+			}
+			var nums []int
+			for num := range rows[mname] {
+				nums = append(nums, num)
+			}
+			sort.Ints(nums)
+			for _, num := range nums {
+				si := rows[mname][num]
+				row := p.Fields[m][num]
+				code, hasCode := goldenCodes[mname][num]
+				if row == nil || !hasCode || si < 0 || si >= len(members) || row.Sindex >= st.NumFields() || st.Field(row.Sindex).Name() != members[si] {
+					continue
+				}
+				oldKind := (code >> 6) & 7
+				if kinds != nil && !kinds[oldKind] && !kinds[row.Kind] {
+					continue
+				}
+				nThis++
+				if oldKind != row.Kind {
+					bad = append(bad, fmt.Sprintf("%s.%s (field %d) is a %s in the output generated from SDK %s but a %s in the checked-in table", strings.TrimPrefix(mname, "MesgNum"), members[si], num, kn(oldKind), key, kn(row.Kind)))
+				}
+			}
+		}
+		nCompared += nThis
+		if len(bad) > 0 {
+			if len(bad) > 4 {
+				bad = append(bad[:4], fmt.Sprintf("... and %d more", len(bad)-4))
+			}
+			r.fail(rule, "sdk-"+key, "profile.go", strings.Join(bad, "; ")+": "+consequence)
+		} else {
+			r.ok(rule, "sdk-"+key, "", fmt.Sprintf("%d rows of these kinds shared with the output generated from the SDK %s workbook carry the same kind", nThis, key))
+		}
+	}
+	r.need("golden generator outputs compared ("+rule+")", nFiles, 3)
+	r.need("rows compared by kind ("+rule+")", nCompared, 20)
+}
+
 // parseGolden: struct name -> member names; message constant -> field num -> struct index; message constant -> struct name.
 func parseGolden(s string) (map[string][]string, map[string]map[int]int, map[string]string, string) {
 	section := func(from, to string) string {
@@ -246,6 +353,17 @@ func parseGolden(s string) (map[string][]string, map[string]map[int]int, map[str
 							continue
 						}
 						rows[mname][num] = si
+						if len(row.Elts) >= 3 {
+							// types.Fit(N)
+							if call, ok := row.Elts[2].(*ast.CallExpr); ok && len(call.Args) == 1 {
+								if code, err := strconv.Atoi(exprStr(call.Args[0])); err == nil {
+									if goldenCodes[mname] == nil {
+										goldenCodes[mname] = map[int]int{}
+									}
+									goldenCodes[mname][num] = code
+								}
+							}
+						}
 					}
 				}
 			case "msgsTypes":
